@@ -22,9 +22,10 @@ vars == <<kind, pc, k, words, iters>>
 
 SumSq(v) == IF Len(v) = 2 THEN v[1] * v[1] + v[2] * v[2] ELSE v[1] * v[1] + v[2] * v[2] + v[3] * v[3]
 
-\* the acceptance test of the code
-Accept(kd, v) == IF kd \in {"disc", "ball"} THEN SumSq(v) <= D2      \* x1*x1 + x2*x2 (+ x3*x3) <= 1
-                 ELSE SumSq(v) < D2                                   \* sum < 1   /  !(sum >= 1)
+\* the acceptance test of the code, for a lattice with squared denominator d2
+AcceptD(kd, v, d2) == IF kd \in {"disc", "ball"} THEN SumSq(v) <= d2   \* x1*x1 + x2*x2 (+ x3*x3) <= 1
+                      ELSE SumSq(v) < d2                                \* sum < 1   /  !(sum >= 1)
+Accept(kd, v) == AcceptD(kd, v, D2)
 
 Init == kind \in Kinds /\ pc = "propose" /\ k = <<>> /\ words = 0 /\ iters = 0
 
